@@ -275,6 +275,9 @@ class Aggregation:
             self.finalize,
             self.fill_value,
             self.dtype,
+            self.min_count,
+            self.finalize_kwargs,
+            self.new_dims_func,
         )
 
     def __repr__(self) -> str:
